@@ -11,6 +11,7 @@ import numpy as np
 from optuna.samplers._lazy_random_state import LazyRandomState
 from optuna.samplers.nsgaii._constraints_evaluation import _validate_constraints
 from optuna.samplers.nsgaii._elite_population_selection_strategy import _rank_population
+from optuna.study._study_direction import StudyDirection
 from optuna.trial import FrozenTrial
 
 
@@ -76,9 +77,12 @@ class NSGAIIIElitePopulationSelectionStrategy:
                     )
 
                 # Normalize objective values after filtering +-inf.
-                objective_matrix = _normalize_objective_values(
-                    _filter_inf(elite_population + population)
+                objective_matrix = _filter_inf(elite_population + population)
+                # The normalization and the niching below assume minimization.
+                objective_matrix *= np.array(
+                    [-1.0 if d == StudyDirection.MAXIMIZE else 1.0 for d in study.directions]
                 )
+                objective_matrix = _normalize_objective_values(objective_matrix)
                 (
                     closest_reference_points,
                     distance_reference_points,
